@@ -1,7 +1,7 @@
 (** C15 - Priorities: lower-priority tasks never take what a waiting higher one fits.
     Only statements closed by [exact]; the proofs live in HQ.Sched.*. *)
 From Coq Require Import Sorting.Sorted.
-From HQ Require Import Base.Prelude Gen.Consts Sched.Model Sched.Proofs.
+From HQ Require Import Base.Prelude Gen.Consts Sched.Model Sched.Proofs Sched.ProofsExact Sched.ExactFullRefuted Sched.ExactFullInst Sched.ExactFull Sched.ExactFullZeroU Sched.ExactFullSorted.
 
 (** [Priority::from_user_priority] is strictly monotone on all of i32 ... *)
 Theorem C15_priority_order_encoding : forall p q : Z,
@@ -125,6 +125,39 @@ Definition C15_no_inversion_exact_class_full : Prop :=
     (forall s', feasible m s' = true -> (objective m s' <= objective m s)%Z) ->
     mapping_ok I bs s d = true -> inversion I d = false.
 
+(** ... it is FALSE (observation K6, outside the property's domain of "up to 8 priority levels"):
+    [create_task_batches] keeps at most 32 cuts per batch, two classes alternating more than 32
+    levels lose cuts, and an optimal solution then dispatches below a waiting, fitting task
+    (one worker with 133 units, classes asking 2 and 3, 40 levels each; confirmed on the real solver). *)
+Theorem C15_no_inversion_exact_class_full_refuted : ~ C15_no_inversion_exact_class_full.
+Proof. exact no_inversion_exact_class_full_refuted. Qed.
+
+(** The true form: one worker, one resource kind, two classes whose priority levels INTERLEAVE in any
+    way (shared levels included, any task counts, any running tasks), at most 32 levels per class
+    (so no cut is pruned; the property's domain is 8) and R / a within the per-worker task cap: an
+    OPTIMAL solution of the row system, dispatched by the mapping, has no priority inversion. *)
+Theorem C15_no_inversion_exact_class_interleaved : forall R F assigned a0 a1 q0 q1 bs m s d,
+  0 < a0 -> 0 < a1 -> F <= R ->
+  R / a0 <= SCHED_MAX_TASK_PER_WORKER -> R / a1 <= SCHED_MAX_TASK_PER_WORKER ->
+  ready_wf q0 -> NoDup (flat_ids q0) -> ready_wf q1 -> NoDup (flat_ids q1) ->
+  (length q0 <= 32)%nat -> (length q1 <= 32)%nat ->
+  create_task_batches (yinst R F assigned a0 a1 q0 q1) = Ok bs ->
+  milp_of (yinst R F assigned a0 a1 q0 q1) bs = Ok m -> feasible m s = true ->
+  (forall s', feasible m s' = true -> (objective m s' <= objective m s)%Z) ->
+  mapping_ok (yinst R F assigned a0 a1 q0 q1) bs s d = true ->
+  inversion (yinst R F assigned a0 a1 q0 q1) d = false.
+Proof. exact exact_class_full_no_inversion. Qed.
+Definition C15_exact_class_interleaved_instance := exact_class_full_instance.
+
+(** Cut semantics, the case that was open: for an UNBOUNDED blocker the aggregate zero-gap bound
+    holds for every cut of every batch (the row of the first cut naming the blocker implies it for
+    the later ones, because cut sizes ascend - also after pruning). *)
+Theorem C15_cut_semantics_zero_gap_unbounded : forall I bs m s b c h,
+  create_task_batches I = Ok bs -> milp_of I bs = Ok m -> feasible m s = true ->
+  In b bs -> count_vars I bs (b_rq b) <> [] -> In c (b_cuts b) -> In (h, None) (c_blockers c) ->
+  (zero_sum I bs s h (b_rq b) (i_workers I) <= Z.of_N (c_size c))%Z.
+Proof. exact cut_semantics_zero_unbounded_batches. Qed.
+
 (** C05, row-system half (used by the cluster component).  [inst_on I w] resolves the classes for worker
     [w]: an entry with the [All] policy demands the worker's TOTAL of that resource.  A feasible point of the row system, turned
     into a dispatch accepted by [mapping_ok], never overbooks a worker, and tasks are only placed where
@@ -158,3 +191,7 @@ Print Assumptions C15_tight_no_inversion_partial.
 Print Assumptions C15_gap_leaves_room.
 Print Assumptions C15_no_inversion_exact_class.
 Print Assumptions C05_feasible_no_overbook.
+Print Assumptions C15_no_inversion_exact_class_full_refuted.
+Print Assumptions C15_no_inversion_exact_class_interleaved.
+Print Assumptions C15_exact_class_interleaved_instance.
+Print Assumptions C15_cut_semantics_zero_gap_unbounded.
